@@ -332,6 +332,23 @@ func factsStore() {
 		emit(g, "uploadMsgs", "List String", fLeanStrList(ms), "UploadStatus: messages of the TERMINATE responses in source order")
 		boolFact(g, "uploadInOneUpdateTx", len(allCalls(fn.Body, `^manager\.db\.Update$`)) == 1 && len(allCalls(fn.Body, `^manager\.db\.`)) == 1, "the whole loop runs inside one db.Update")
 	}
+	// ---- ListAllUsers / GetUserInfo: whose memory is the UID of a returned UserInfo? ----
+	// bbolt: the key slice handed to a ForEach callback points into the database mapping and is valid only for the life
+	// of the transaction; the result of ListAllUsers is used (json.Marshal) after db.View has returned.
+	if fn := fnOf(um, "localManager.ListAllUsers"); fn == nil {
+		unrec(g, "listUIDIsCopy", "ListAllUsers not found")
+	} else {
+		fStoreListUID(g, fn)
+	}
+	if fn := fnOf(um, "localManager.GetUserInfo"); fn != nil {
+		rhs := allAssignRHS(fn, `^uinfo\.UID$`)
+		param := ""
+		if fn.Type.Params != nil && len(fn.Type.Params.List) == 1 && len(fn.Type.Params.List[0].Names) == 1 {
+			param = fn.Type.Params.List[0].Names[0].Name
+		}
+		boolFact(g, "getUIDIsCallersArgument", len(rhs) == 1 && param != "" && show(rhs[0]) == param,
+			"GetUserInfo: uinfo.UID is the caller's own slice (the function parameter), not database memory")
+	}
 	if fn := fnOf(um, "localManager.DeleteUser"); fn != nil {
 		boolFact(g, "deleteIsDeleteBucket", len(allCalls(fn.Body, `^tx\.DeleteBucket$`)) == 1 && show(allCalls(fn.Body, `^tx\.DeleteBucket$`)[0].Args[0]) == "UID" &&
 			len(allCalls(fn.Body, `^manager\.db\.Update$`)) == 1, "DeleteUser = db.Update(tx.DeleteBucket(UID))")
@@ -543,4 +560,52 @@ func fAssignLHSOfCall(fn *ast.FuncDecl, funRe string) []string {
 		return true
 	})
 	return out
+}
+
+// fStoreListUID decides whether the UID stored in each listed UserInfo is a copy of the key slice bbolt hands to the
+// tx.ForEach callback (its first parameter) or that slice itself.
+func fStoreListUID(g string, fn *ast.FuncDecl) {
+	var cb *ast.FuncLit
+	ast.Inspect(fn.Body, func(n ast.Node) bool {
+		if c, ok := n.(*ast.CallExpr); ok && cb == nil && strings.HasSuffix(show(c.Fun), ".ForEach") && len(c.Args) == 1 {
+			if l, ok := c.Args[0].(*ast.FuncLit); ok {
+				cb = l
+			}
+		}
+		return true
+	})
+	if cb == nil || cb.Type.Params == nil || len(cb.Type.Params.List) == 0 || len(cb.Type.Params.List[0].Names) == 0 {
+		unrec(g, "listUIDIsCopy", "ListAllUsers: tx.ForEach(func(key, bucket) ...) not found")
+		return
+	}
+	key := cb.Type.Params.List[0].Names[0].Name
+	kre := regexp.QuoteMeta(key)
+	var rhs []ast.Expr
+	ast.Inspect(cb.Body, func(n ast.Node) bool {
+		if a, ok := n.(*ast.AssignStmt); ok && len(a.Lhs) == 1 && len(a.Rhs) == 1 && show(a.Lhs[0]) == "uinfo.UID" {
+			rhs = append(rhs, a.Rhs[0])
+		}
+		return true
+	})
+	if len(rhs) != 1 {
+		unrec(g, "listUIDIsCopy", fmt.Sprintf("ListAllUsers: expected one assignment to uinfo.UID in the ForEach callback, found %d", len(rhs)))
+		return
+	}
+	t := show(rhs[0])
+	copyForms := regexp.MustCompile(`^(append\(\[\]byte(\(nil\)|\{\}), ` + kre + `\.\.\.\)|bytes\.Clone\(` + kre + `\)|slices\.Clone\(` + kre + `\)|\[\]byte\(string\(` + kre + `\)\))$`)
+	switch {
+	case t == key:
+		boolFact(g, "listUIDIsCopy", false, "ListAllUsers: uinfo.UID = "+t+" -- the key slice of the read transaction itself (database memory, valid only inside the transaction)")
+	case copyForms.MatchString(t):
+		boolFact(g, "listUIDIsCopy", true, "ListAllUsers: uinfo.UID = "+t+" -- a copy of the transaction's key slice")
+	default:
+		// e.g. a local filled by make + copy: recognise `x := make([]byte, len(key)); copy(x, key); uinfo.UID = x`
+		src := show(cb.Body)
+		if id, ok := rhs[0].(*ast.Ident); ok && regexp.MustCompile(regexp.QuoteMeta(id.Name)+` :?= make\(\[\]byte, len\(`+kre+`\)\)`).MatchString(src) &&
+			strings.Contains(src, "copy("+id.Name+", "+key+")") {
+			boolFact(g, "listUIDIsCopy", true, "ListAllUsers: uinfo.UID = "+t+" (make + copy of the transaction's key slice)")
+			return
+		}
+		unrec(g, "listUIDIsCopy", "ListAllUsers: cannot tell whether `uinfo.UID = "+t+"` copies the transaction's key slice")
+	}
 }
